@@ -44,3 +44,33 @@ Theorem C06_hash_iteration_sites_discharged :
   forallb site_discharged hash_iteration_sites = true.
 Proof. vm_compute. reflexivity. Qed.
 Print Assumptions C06_hash_iteration_sites_discharged.
+
+(* ------------------------------------------------------------------ the CHECKER's result does not depend
+   on the order in which its HashMaps are iterated (Check/InferPerm.v; Check/Infer.v is the model of
+   src/check.rs, tied to it; it iterates association lists where the code iterates HashMaps).
+   [check_rel]: the checker uses its definitions only through look-ups and the map of already typed
+   functions only as a map (calls allowed).  For programs without calls: permuting the function,
+   struct and enum lists changes neither acceptance nor the typed program - the exported typed
+   programs are EQUAL.  (With calls the memoisation-independence step is not proved: partial.) *)
+From GV Require Import Front.ParseExpr Check.UAst Check.Infer Check.InferPerm.
+From Coq Require Import Permutation.
+
+Theorem C06_checker_acceptance_independent_of_map_order_partial : forall intern P Q fuel,
+  (forall a b, intern a = intern b -> a = b) ->
+  up_consts Q = up_consts P -> up_main Q = up_main P ->
+  Permutation (up_fns P) (up_fns Q) -> Permutation (up_structs P) (up_structs Q) -> Permutation (up_enums P) (up_enums Q) ->
+  NoDup (map uf_name (up_fns P)) -> NoDup (map us_name (up_structs P)) -> NoDup (map ue_name (up_enums P)) ->
+  (forall fd, In fd (up_fns P) -> nocall_fn fd) ->
+  is_ok (check_program_t intern fuel P) = is_ok (check_program_t intern fuel Q).
+Proof. exact check_perm_accept_nocalls. Qed.
+Print Assumptions C06_checker_acceptance_independent_of_map_order_partial.
+
+Theorem C06_checker_output_independent_of_map_order_partial : forall intern P Q fuel A B,
+  (forall a b, intern a = intern b -> a = b) ->
+  up_consts Q = up_consts P -> up_main Q = up_main P ->
+  Permutation (up_fns P) (up_fns Q) -> Permutation (up_structs P) (up_structs Q) -> Permutation (up_enums P) (up_enums Q) ->
+  NoDup (map uf_name (up_fns P)) -> NoDup (map us_name (up_structs P)) -> NoDup (map ue_name (up_enums P)) ->
+  (forall fd, In fd (up_fns P) -> nocall_fn fd) ->
+  check_program intern fuel P = COk A -> check_program intern fuel Q = COk B -> A = B.
+Proof. exact check_perm_export_nocalls. Qed.
+Print Assumptions C06_checker_output_independent_of_map_order_partial.
